@@ -210,6 +210,34 @@ theorem H9.findLongestMatch_sound {P : H9P} {lbs : Nat} {dict : Option (List Dic
 
 /-! ### BasicHasher -/
 
+theorem Basic.phase1Take_sound {P : BasicP} {lbs : Nat} {data : ByteArray} {m curIx cm key maxLength
+    maxBackward cachedBackward len : Nat} {out : SR} {b : Tab} {c : Common} {r : Basic.Ret ⊕ Basic.SweepSt}
+    (hI1 : ∀ score, Inv data m cm curIx maxLength maxBackward
+      ((⟨out.score, out.len, out, false⟩ : LoopSt).take len cachedBackward score))
+    (h : Basic.phase1Take P lbs data curIx cm key cachedBackward len out b c = some r) :
+    (∀ ret, r = .inl ret → CopyOK data m cm curIx maxLength maxBackward ret.2.1) ∧
+    (∀ t, r = .inr t → Inv data m cm curIx maxLength maxBackward t.s) := by
+  unfold Basic.phase1Take at h
+  simp only [] at h
+  cases hb2 : byteAt data (cm + len) with
+  | none => simp only [hb2] at h; cases h
+  | some cc =>
+    simp only [hb2] at h
+    by_cases hs1 : P.sweep = 1
+    · rw [if_pos hs1] at h
+      cases hw : wr b key (curIx % U32) with
+      | none => simp only [hw] at h; cases h
+      | some b1 =>
+        simp only [hw, Option.some.injEq] at h
+        refine ⟨fun ret hh => ?_, fun t hh => ?_⟩
+        · rw [← h] at hh; injection hh with hh; rw [← hh]; exact (hI1 _).2 rfl
+        · rw [← h] at hh; cases hh
+    · rw [if_neg hs1] at h
+      simp only [Option.some.injEq] at h
+      refine ⟨fun ret hh => ?_, fun t hh => ?_⟩
+      · rw [← h] at hh; cases hh
+      · rw [← h] at hh; injection hh with hh; rw [← hh]; exact hI1 _
+
 theorem Basic.phase1_sound {P : BasicP} {lbs : Nat} {data : ByteArray} {mask curIx cm key maxLength
     maxBackward cachedBackward cc0 : Nat} {out : SR} {b : Tab} {c : Common} {r : Basic.Ret ⊕ Basic.SweepSt}
     (hc : curIx < U64) (hcb : cachedBackward < U64) (hx : out.lenXCode = 0)
@@ -222,9 +250,10 @@ theorem Basic.phase1_sound {P : BasicP} {lbs : Nat} {data : ByteArray} {mask cur
       (∀ ret, r' = .inl ret → CopyOK data (mask % U32) cm curIx maxLength maxBackward ret.2.1) ∧
       (∀ t, r' = .inr t → Inv data (mask % U32) cm curIx maxLength maxBackward t.s) := by
     intro r' hr
-    injection hr with hr
-    subst hr
-    exact ⟨fun ret hh => (by cases hh), fun t hh => by injection hh with hh; subst hh; exact hI0⟩
+    simp only [Option.some.injEq] at hr
+    refine ⟨fun ret hh => ?_, fun t hh => ?_⟩
+    · rw [← hr] at hh; cases hh
+    · rw [← hr] at hh; injection hh with hh; rw [← hh]; exact hI0
   unfold Basic.phase1 at h
   simp only [] at h
   by_cases hcond : wsub curIx cachedBackward < curIx ∧ cachedBackward ≤ maxBackward
@@ -242,26 +271,8 @@ theorem Basic.phase1_sound {P : BasicP} {lbs : Nat} {data : ByteArray} {mask cur
           by_cases hl : len ≠ 0
           · rw [if_pos hl] at h
             obtain ⟨hlen, hag⟩ := min4_sound hf
-            have hI1 := hI0.take_backward hc hcb hcond.1 hcond.2 hlen hag (scoreLast lbs len)
-            unfold Basic.phase1Take at h
-            simp only [] at h
-            cases hb2 : byteAt data (cm + len) with
-            | none => simp only [hb2] at h; cases h
-            | some cc =>
-              simp only [hb2] at h
-              by_cases hs1 : P.sweep = 1
-              · rw [if_pos hs1] at h
-                cases hw : wr b key (curIx % U32) with
-                | none => simp only [hw] at h; cases h
-                | some b1 =>
-                  simp only [hw, Option.some.injEq] at h
-                  subst h
-                  exact ⟨fun ret hh => by injection hh with hh; subst hh; exact hI1.2 rfl,
-                    fun t hh => (by cases hh)⟩
-              · rw [if_neg hs1] at h
-                injection h with h
-                subst h
-                exact ⟨fun ret hh => (by cases hh), fun t hh => by injection hh with hh; subst hh; exact hI1⟩
+            exact Basic.phase1Take_sound
+              (fun score => hI0.take_backward hc hcb hcond.1 hcond.2 hlen hag score) h
           · rw [if_neg hl] at h; exact hnone r h
       · rw [if_neg hcc] at h; exact hnone r h
   · rw [if_neg hcond] at h; exact hnone r h
@@ -281,12 +292,12 @@ theorem Basic.phase2Single_sound {lbs : Nat} {data : ByteArray} {mask curIx cm m
     by_cases hp : t.cc ≠ pb
     · rw [if_pos hp] at h
       injection h with h; subst h
-      exact ⟨fun ret hh ht => by injection hh with hh; subst hh; cases ht, fun t' hh => (by cases hh)⟩
+      exact ⟨fun ret hh ht => (by injection hh with hh; subst hh; cases ht), fun t' hh => (by cases hh)⟩
     · rw [if_neg hp] at h
       by_cases hw : wsub curIx prev = 0 ∨ wsub curIx prev > maxBackward
       · rw [if_pos hw] at h
         injection h with h; subst h
-        exact ⟨fun ret hh ht => by injection hh with hh; subst hh; cases ht, fun t' hh => (by cases hh)⟩
+        exact ⟨fun ret hh ht => (by injection hh with hh; subst hh; cases ht), fun t' hh => (by cases hh)⟩
       · rw [if_neg hw] at h
         cases hf : findMatchLengthWithLimitMin4 data (prev &&& (mask % U32)) cm maxLength with
         | none => simp only [hf] at h; cases h
@@ -340,6 +351,30 @@ theorem Basic.phase2_sound {P : BasicP} {lbs : Nat} {data : ByteArray} {mask cur
           injection hh with hh; subst hh; exact Basic.sweepLoop_inv b key _ _ _ _ hI hl⟩
     · rw [if_neg hk] at h; cases h
 
+theorem Basic.dictStep_sound {useDict : Bool} {lbs : Nat} {dict : Option (List DictItem)}
+    {data : ByteArray} {m curIx cm maxLength maxBackward maxDistance : Nat} {s : LoopSt}
+    {c c' : Common} {f : Bool} {o : SR}
+    (hI : Inv data m cm curIx maxLength maxBackward s)
+    (h : Basic.dictStep useDict lbs dict data cm maxLength maxBackward maxDistance s c = some (f, o, c'))
+    (hf : f = true) : Sound dict data m cm curIx maxLength maxBackward maxDistance o := by
+  unfold Basic.dictStep at h
+  cases dict with
+  | none =>
+    simp only [Option.some.injEq, Prod.mk.injEq] at h
+    obtain ⟨h1, h2, _⟩ := h
+    subst h2
+    exact Or.inl (hI.2 (by rw [h1]; exact hf))
+  | some items =>
+    simp only [] at h
+    by_cases hcond : useDict = true ∧ ¬ s.found = true
+    · rw [if_pos hcond] at h
+      exact Or.inr ⟨items, rfl, (search_sound h).1 hf⟩
+    · rw [if_neg hcond] at h
+      simp only [Option.some.injEq, Prod.mk.injEq] at h
+      obtain ⟨h1, h2, _⟩ := h
+      subst h2
+      exact Or.inl (hI.2 (by rw [h1]; exact hf))
+
 theorem Basic.phase3_sound {P : BasicP} {useDict : Bool} {lbs : Nat} {dict : Option (List DictItem)}
     {data : ByteArray} {m curIx cm key maxLength maxBackward maxDistance : Nat} {s : LoopSt} {b b' : Tab}
     {c c' : Common} {f : Bool} {o : SR}
@@ -348,46 +383,11 @@ theorem Basic.phase3_sound {P : BasicP} {useDict : Bool} {lbs : Nat} {dict : Opt
       = some (f, o, b', c')) (hf : f = true) :
     Sound dict data m cm curIx maxLength maxBackward maxDistance o := by
   unfold Basic.phase3 at h
-  simp only [] at h
-  -- the dictionary step
-  have hd : ∀ (f1 : Bool) (o1 : SR) (c1 : Common),
-      (match dict with
-        | some items =>
-          if useDict = true ∧ ¬ s.found = true then
-            searchInStaticDictionary lbs items data cm maxLength maxBackward maxDistance s.out c
-          else some (s.found, s.out, c)
-        | none => some (s.found, s.out, c)) = some (f1, o1, c1) → f1 = true →
-      Sound dict data m cm curIx maxLength maxBackward maxDistance o1 := by
-    intro f1 o1 c1 hh hf1
-    cases dict with
-    | none =>
-      simp only [Option.some.injEq, Prod.mk.injEq] at hh
-      obtain ⟨h1, h2, _⟩ := hh
-      subst h2
-      exact Or.inl (hI.2 (by rw [h1]; exact hf1))
-    | some items =>
-      simp only [] at hh
-      by_cases hcond : useDict = true ∧ ¬ s.found = true
-      · rw [if_pos hcond] at hh
-        exact Or.inr ⟨items, rfl, (search_sound hh).1 hf1⟩
-      · rw [if_neg hcond] at hh
-        simp only [Option.some.injEq, Prod.mk.injEq] at hh
-        obtain ⟨h1, h2, _⟩ := hh
-        subst h2
-        exact Or.inl (hI.2 (by rw [h1]; exact hf1))
-  revert h
-  generalize (match dict with
-        | some items =>
-          if useDict = true ∧ ¬ s.found = true then
-            searchInStaticDictionary lbs items data cm maxLength maxBackward maxDistance s.out c
-          else some (s.found, s.out, c)
-        | none => some (s.found, s.out, c)) = dr at hd
-  intro h
-  cases dr with
-  | none => cases h
+  cases hd : Basic.dictStep useDict lbs dict data cm maxLength maxBackward maxDistance s c with
+  | none => simp only [hd] at h; cases h
   | some r =>
     obtain ⟨f1, o1, c1⟩ := r
-    simp only [] at h
+    simp only [hd] at h
     by_cases hs0 : P.sweep = 0
     · rw [if_pos hs0] at h; cases h
     · rw [if_neg hs0] at h
@@ -396,7 +396,40 @@ theorem Basic.phase3_sound {P : BasicP} {useDict : Bool} {lbs : Nat} {dict : Opt
       | some b1 =>
         simp only [hw, Option.some.injEq, Prod.mk.injEq] at h
         obtain ⟨rfl, rfl, _, _⟩ := h
-        exact hd f o c1 rfl hf
+        exact Basic.dictStep_sound hI hd hf
+
+theorem Basic.finish2_inv {P : BasicP} {useDict : Bool} {lbs : Nat} {dict : Option (List DictItem)}
+    {data : ByteArray} {curIx cm key maxLength maxBackward maxDistance : Nat} {c : Common}
+    {r2 : Option ((Basic.Ret ⊕ Basic.SweepSt) × Tab)} {ret : Basic.Ret}
+    (h : Basic.finish2 P useDict lbs dict data curIx cm key maxLength maxBackward maxDistance c r2 = some ret) :
+    (∃ b, r2 = some (.inl ret, b)) ∨
+    (∃ t b, r2 = some (.inr t, b) ∧
+      Basic.phase3 P useDict lbs dict data curIx cm key maxLength maxBackward maxDistance t.s b c = some ret) := by
+  unfold Basic.finish2 at h
+  cases r2 with
+  | none => cases h
+  | some p =>
+    obtain ⟨r, b⟩ := p
+    cases r with
+    | inl r => injection h with h; subst h; exact Or.inl ⟨b, rfl⟩
+    | inr t => exact Or.inr ⟨t, b, rfl, h⟩
+
+theorem Basic.finish1_inv {P : BasicP} {useDict : Bool} {lbs : Nat} {dict : Option (List DictItem)}
+    {data : ByteArray} {mask curIx cm key maxLength maxBackward maxDistance bestLenIn : Nat} {b : Tab}
+    {c : Common} {r1 : Option (Basic.Ret ⊕ Basic.SweepSt)} {ret : Basic.Ret}
+    (h : Basic.finish1 P useDict lbs dict data mask curIx cm key maxLength maxBackward maxDistance bestLenIn
+      b c r1 = some ret) :
+    r1 = some (.inl ret) ∨
+    (∃ t, r1 = some (.inr t) ∧
+      Basic.finish2 P useDict lbs dict data curIx cm key maxLength maxBackward maxDistance c
+        (Basic.phase2 P lbs data mask curIx cm key maxLength maxBackward bestLenIn t b c) = some ret) := by
+  unfold Basic.finish1 at h
+  cases r1 with
+  | none => cases h
+  | some r =>
+    cases r with
+    | inl r => injection h with h; subst h; exact Or.inl rfl
+    | inr t => exact Or.inr ⟨t, rfl, h⟩
 
 /-- `BasicHasher::FindLongestMatch` -/
 theorem Basic.findLongestMatch_sound {P : BasicP} {useDict : Bool} {lbs : Nat}
@@ -407,45 +440,18 @@ theorem Basic.findLongestMatch_sound {P : BasicP} {useDict : Bool} {lbs : Nat}
       out b c = some (true, o, b', c')) :
     Sound dict data (mask % U32) (curIx &&& mask) curIx maxLength maxBackward maxDistance o := by
   unfold Basic.findLongestMatch at h
-  simp only [] at h
-  cases hk : BV.Hasher.Basic.hashAt P data (curIx &&& mask) with
-  | none => simp only [hk] at h; cases h
-  | some key =>
-    simp only [hk] at h
-    cases hb : byteAt data ((curIx &&& mask) + out.len) with
-    | none => simp only [hb] at h; cases h
-    | some cc0 =>
-      simp only [hb] at h
-      cases hc0 : cache[0]? with
-      | none => simp only [hc0] at h; cases h
-      | some c0 =>
-        simp only [hc0] at h
-        cases h1 : Basic.phase1 P lbs data mask curIx (curIx &&& mask) key maxLength maxBackward
-            (i32ToUsize c0) cc0 { out with lenXCode := 0 } b c with
-        | none => simp only [h1] at h; cases h
-        | some r1 =>
-          obtain ⟨p1a, p1b⟩ := Basic.phase1_sound hc (i32ToUsize_lt c0) rfl h1
-          cases r1 with
-          | inl ret =>
-            simp only [h1, Option.some.injEq] at h
-            subst h
-            exact Or.inl (p1a _ rfl)
-          | inr t =>
-            simp only [h1] at h
-            have hI1 := p1b t rfl
-            cases h2 : Basic.phase2 P lbs data mask curIx (curIx &&& mask) key maxLength maxBackward
-                out.len t b c with
-            | none => simp only [h2] at h; cases h
-            | some r2 =>
-              obtain ⟨r2a, b2⟩ := r2
-              obtain ⟨p2a, p2b⟩ := Basic.phase2_sound hI1 h2
-              cases r2a with
-              | inl ret =>
-                simp only [h2, Option.some.injEq] at h
-                subst h
-                exact Or.inl (p2a _ rfl rfl)
-              | inr t2 =>
-                simp only [h2] at h
-                exact Basic.phase3_sound (p2b t2 rfl) h rfl
+  obtain ⟨key, _, h⟩ := Option.bind_eq_some_iff.mp h
+  obtain ⟨cc0, _, h⟩ := Option.bind_eq_some_iff.mp h
+  obtain ⟨c0, _, h⟩ := Option.bind_eq_some_iff.mp h
+  rcases Basic.finish1_inv h with h1 | ⟨t, h1, h⟩
+  · obtain ⟨p1a, _⟩ := Basic.phase1_sound hc (i32ToUsize_lt c0) rfl h1
+    exact Or.inl (p1a _ rfl)
+  · obtain ⟨_, p1b⟩ := Basic.phase1_sound hc (i32ToUsize_lt c0) rfl h1
+    have hI1 := p1b t rfl
+    rcases Basic.finish2_inv h with ⟨b2, h2⟩ | ⟨t2, b2, h2, h3⟩
+    · obtain ⟨p2a, _⟩ := Basic.phase2_sound hI1 h2
+      exact Or.inl (p2a _ rfl rfl)
+    · obtain ⟨_, p2b⟩ := Basic.phase2_sound hI1 h2
+      exact Basic.phase3_sound (p2b t2 rfl) h3 rfl
 
 end BV.MatchFinder
